@@ -27,12 +27,19 @@ def gen_model(rng, dt):
     nn = torch.nn
     conv = rng.random() < 0.35
     mods = {}
+    cin = rng.choice([1, 2])
     if conv:
-        mods['conv'] = nn.Conv2d(2, 3, 2, padding=rng.choice([0, 1]), bias=rng.random() < 0.6)
+        # incl. the shapes for which the patch unfolding is a no-op view of the live activation:
+        # 1x1 unpadded bias-free kernels, a single input channel, channels_last inputs
+        k = rng.choice([1, 2])
+        pad = rng.choice([0, 0, 1])
+        mods['conv'] = nn.Conv2d(cin, 3, k, padding=pad, bias=rng.random() < 0.5)
         mods['bn'] = nn.BatchNorm2d(3)
+        if rng.random() < 0.5:
+            mods['conv2'] = nn.Conv2d(3, 3, 1, bias=False)
         mods['act0'] = nn.ReLU()
         mods['flat'] = nn.Flatten()
-        feat = 3 * (3 if mods['conv'].padding[0] == 0 else 5) ** 2
+        feat = 3 * (4 + 2 * pad - k + 1) ** 2
     else:
         feat = 4
     mods['fc1'] = nn.Linear(feat, 5, bias=rng.random() < 0.7)
@@ -50,7 +57,9 @@ def gen_model(rng, dt):
         p.requires_grad_(False)
     m.partly.bias.requires_grad_(False)
     m = m.to(dt)
-    x = torch.randn(6, 2, 4, 4) if conv else torch.randn(6, 4)
+    x = torch.randn(6, cin, 4, 4) if conv else torch.randn(6, 4)
+    if conv and rng.random() < 0.4:
+        x = x.contiguous(memory_format=torch.channels_last)
     return m, x.to(dt), ['skip']
 
 
@@ -104,7 +113,17 @@ def run(ctx):
         scaler = rng.choice([None, None, 1024.0])
         accum = rng.choice([1, 1, 2])
         fdt = rng.choice([None, torch.float32, torch.float64])
+        conv_model = x.dim() == 4
+        big = (not conv_model) and dt == torch.float32 and rng.random() < 0.3
+        if big:
+            # large but finite activations with half-precision factors: the second moment a^T (a / rows) is
+            # representable although the un-normalised sum a^T a is not
+            fdt = torch.float16
+            x = torch.where(x >= 0, torch.ones_like(x), -torch.ones_like(x)) * 150.0
+        empty_first = (not conv_model) and rng.random() < 0.3
         case = {'dtype': str(dt), 'method': method, 'scaler': scaler, 'accum': accum, 'factor_dtype': str(fdt),
+                'large_activations_fp16_factors': big, 'empty_batch_first': empty_first,
+                'channels_last': bool(conv_model and not x.is_contiguous()),
                 'modules': [type(c).__name__ for c in m], 'bias': [getattr(c, 'bias', None) is not None for c in m]}
         try:
             p = KFACPreconditioner(m, skip_layers=skip, compute_method=method, accumulation_steps=accum,
@@ -112,10 +131,23 @@ def run(ctx):
                                    compute_eigenvalue_outer_product=(method == 'eigen' and rng.random() < 0.5),
                                    damping=0.05, inv_dtype=rng.choice([torch.float32, torch.float64]))
             registered = {n for n, _ in p._layers.values()}
+            if empty_first:
+                # an iteration in which the layers see no samples at all (e.g. an expert that got no tokens):
+                # all inputs are (vacuously) finite, the gradients are zero
+                for mb in range(accum):
+                    m(x[:0]).float().sum().backward()
+                p.step()
+                m.zero_grad()
+                for q in m.parameters():
+                    if q.grad is not None and not torch.isfinite(q.grad.float()).all():
+                        ctx.fail('gradient not finite after an empty-batch iteration', case, 'grad-nonfinite')
             # ---- registering K-FAC does not change outputs or autograd gradients
             for mb in range(accum):
-                y1 = m(x)
-                y2 = twin(x)
+                x1, x2 = x.clone(memory_format=torch.preserve_format), x.clone(memory_format=torch.preserve_format)
+                y1 = m(x1)
+                y2 = twin(x2)
+                if not torch.equal(x1, x):
+                    ctx.fail('the forward hook changed the input of the model in place', case, 'input-changed')
                 if not torch.equal(y1, y2):
                     ctx.fail('model output changed by registering K-FAC', case, 'output-changed')
                 sc = 1.0 if scaler is None else scaler
